@@ -85,11 +85,19 @@ def _init_worker(modname: str, fnname: str) -> None:
     import gc
 
     gc.freeze()
+    from . import linecov
+
+    linecov.start()
 
 
 def _call(job):
     try:
-        return ("ok", _WORKER_FN(job))
+        r = _WORKER_FN(job)
+        if os.environ.get("MC_COVER"):
+            from . import linecov
+
+            linecov.dump()
+        return ("ok", r)
     except HarnessError as e:
         return ("harness", f"{e}\n{traceback.format_exc()}\njob={json.dumps(job, default=str)[:2000]}")
     except BaseException as e:  # noqa: BLE001
